@@ -410,31 +410,31 @@ fn cstr(s: &str) -> CString {
 }
 
 pub fn classify_update_message(status: i32, msg: &str) -> String {
-    let kind = match status {
-        0 => "none",
-        1 => "inst",
-        3 => "bad",
-        2 => "haderr",
-        -1 => {
-            if msg == "Config not initialized" {
-                "cfg"
-            } else if msg == "Update already in progress" {
-                "busy"
-            } else if msg == "verif: check failed" {
-                "check"
-            } else if msg == "Bad server response" {
-                "badresp"
-            } else if msg == "verif: download failed" {
-                "dl"
-            } else if msg.starts_with("This app reports version") {
-                "hash"
-            } else if msg.starts_with("Patch signature") || msg.starts_with("Failed to decode") {
-                "sig"
-            } else {
-                "other"
-            }
-        }
-        _ => "unknown",
+    // the outcome is read off the message text; the code is whatever the C struct carried
+    let kind = if msg == "No update" {
+        "none"
+    } else if msg == "Update installed" {
+        "inst"
+    } else if msg.starts_with("Update available but previously failed") {
+        "bad"
+    } else if msg == "Update had error" {
+        "haderr"
+    } else if msg == "Config not initialized" {
+        "cfg"
+    } else if msg == "Update already in progress" {
+        "busy"
+    } else if msg == "verif: check failed" {
+        "check"
+    } else if msg == "Bad server response" {
+        "badresp"
+    } else if msg == "verif: download failed" {
+        "dl"
+    } else if msg.starts_with("This app reports version") {
+        "hash"
+    } else if msg.starts_with("Patch signature") || msg.starts_with("Failed to decode") {
+        "sig"
+    } else {
+        "other"
     };
     format!("s{}:{}", status, kind)
 }
